@@ -1,9 +1,265 @@
-(* C11 - stub while the proofs are being completed *)
+(* C11 - reader / writer / copy adapters terminate and are transparent to short I/O and I/O errors.
+   Property theorems only; every proof is `exact <lemma>` (proofs/IO_proofs.v).
+
+   Models (model/IO.v): CompressorReaderCustomIo::read, CompressorWriterCustomIo::{write, flush,
+   flush_or_close, into_inner / Drop}, writer.rs `write_all`, BrotliCompressCustomIoCustomDict's
+   copy loop, and the Interrupted-retrying std wrappers of brotli_decompressor::io_wrappers, over
+     * an abstract encoder [enc_step] constrained by [contract] (the call contract of
+       compress_stream; visible premise of every theorem that needs it), and
+     * scripted wrapped streams: per-call behaviours Full | Short k | Zero | Interrupted | Fail e,
+       then one behaviour repeated for ever ([tail_ok]: that one is not Interrupted).
+   The models follow the code after the two repairs 3fdd175 (reader, empty buffer) and b5ff0f7
+   (copy adapter, zero-length write); gen/GenIO.v re-reads from the sources on every check whether
+   the repairs are still there, so undoing one breaks C11_reader_empty / C11_copy below.
+
+   Known classes (recorded findings, not repaired; mirrored in known_findings.json):
+     [KnownExhausted]      error_if_invalid_data already taken: the next zero-length write is
+                           swallowed (when error_if_zero_bytes_written is gone too), and a call the
+                           encoder refuses panics (Option::unwrap on None);
+     [close discards]      into_inner / Drop cannot report: flush_or_close's error is dropped;
+     [chunk dependent]     an encoder whose output depends on how its input is cut into calls
+                           (qualities 0 and 1): short reads change the delivered bytes. *)
 From Coq Require Import NArith List Bool Arith.
 From V Require Import gen.GenIO model.IO proofs.IO_proofs.
 Import ListNotations.
 
+(* ------------------------------------------------------------------ write_all (writer.rs) *)
+(* Returns within |buf| + 1 iterations (at most |buf| successful sink calls); the sink has received
+   a prefix of buf - all of it when the result is Ok, unless both stored errors were gone and a
+   zero-length write was swallowed; a sink error is returned unchanged; a zero-length write is
+   reported with a stored error while one is left.  See [write_all_post]. *)
 Theorem C11_write_all : forall fuel k buf ez ei,
   tail_ok (k_script k) -> length buf < fuel -> write_all_post k buf ez ei (write_all fuel k buf ez ei).
 Proof. exact write_all_spec. Qed.
 Print Assumptions C11_write_all.
+
+(* ------------------------------------------------------------------ reader *)
+(* For every script and every non-empty caller buffer, `read` returns within
+   |unread source| + |staged bytes| + 2 loop iterations, never panics, keeps the state invariant
+   (so it can be called again after an error), and
+     Ok d    : d is exactly what the encoder produced during the call, |d| <= |buf|, no wrapped
+               error occurred; d = [] only when the encoder is finished and has been fed every
+               byte the wrapped reader delivered before signalling end of input;
+     Err e   : e is the wrapped reader's own error, and nothing was delivered or lost. *)
+Theorem C11_reader :
+  forall estate enc_step enc_finished enc_more accepting live potential G,
+  contract estate enc_step enc_finished enc_more accepting live potential G ->
+  forall (st0 : estate) (r : reader estate) buf_len fuel,
+  RInv enc_step enc_finished accepting st0 r -> 0 < buf_len -> read_fuel r <= fuel ->
+  read_post enc_step enc_finished accepting st0 r buf_len (read enc_step enc_finished fuel r buf_len).
+Proof. exact read_spec. Qed.
+Print Assumptions C11_reader.
+
+(* a freshly constructed reader (any non-empty staging buffer, incl. 1) satisfies the invariant *)
+Theorem C11_reader_fresh :
+  forall estate (enc_step : estate -> op -> list byte -> nat -> eans estate) enc_finished accepting
+         (st0 : estate) n src,
+  0 < n -> fresh_source src -> accepting st0 = true -> enc_finished st0 = false ->
+  RInv enc_step enc_finished accepting st0 (reader_new n st0 src).
+Proof. exact reader_new_inv. Qed.
+Print Assumptions C11_reader_fresh.
+
+(* "short reads do not change the delivered bytes": when the stream has ended the caller holds
+   stream_of(the bytes the wrapped reader delivered), whatever the script - for an encoder whose
+   finished output is a function of its concatenated input *)
+Theorem C11_reader_transparent :
+  forall estate enc_step enc_finished enc_more accepting live potential G,
+  contract estate enc_step enc_finished enc_more accepting live potential G ->
+  forall (st0 : estate) stream_of (r : reader estate) buf_len fuel r',
+  chunk_independent enc_step enc_finished st0 stream_of ->
+  RInv enc_step enc_finished accepting st0 r -> 0 < buf_len -> read_fuel r <= fuel ->
+  read enc_step enc_finished fuel r buf_len = (Ok [], r') ->
+  emitted (r_enc r') = stream_of (src_taken_bytes (r_src r')).
+Proof. exact reader_stream. Qed.
+Print Assumptions C11_reader_transparent.
+
+(* `read(&mut [])` returns Ok(0) at once (repaired code) ... *)
+Theorem C11_reader_empty :
+  forall estate enc_step enc_finished (r : reader estate) fuel,
+  read enc_step enc_finished fuel r 0 = (Ok [], r).
+Proof. exact read_empty. Qed.
+Print Assumptions C11_reader_empty.
+
+(* ... whereas the loop as it stood never returns for an empty buffer: for every amount of fuel *)
+Theorem C11_reader_empty_unrepaired_refuted :
+  forall estate enc_step enc_finished enc_more accepting live potential G,
+  contract estate enc_step enc_finished enc_more accepting live potential G ->
+  forall (st0 : estate) (r : reader estate),
+  RInv enc_step enc_finished accepting st0 r -> plain_source (r_src r) ->
+  enc_finished (t_st (r_enc r)) = false ->
+  forall fuel, fst (read_unguarded enc_step enc_finished fuel r 0) = OutOfFuel.
+Proof. exact read_unguarded_spins. Qed.
+Print Assumptions C11_reader_empty_unrepaired_refuted.
+
+Theorem C11_reader_empty_unrepaired_witness :
+  forall fuel, fst (read_unguarded (toy_step false) toy_finished fuel
+                      (reader_new 4 toy0 (plain_src [97%N; 98%N; 99%N])) 0) = OutOfFuel.
+Proof. exact read_unguarded_witness. Qed.
+Print Assumptions C11_reader_empty_unrepaired_witness.
+
+(* ------------------------------------------------------------------ writer *)
+(* [KnownExhausted w] := w_ei w = false (proofs/IO_proofs.v) *)
+
+(* write: returns within potential + (G+1)|buf| + 1 iterations; Ok(n) => n = |buf|, the encoder
+   was fed buf and went through exactly the states of the sink-free reference run [ref_write]
+   (short writes change nothing), and the sink received exactly what the encoder produced
+   ([sink_track]; or the known swallow); Err e => the sink's own error, or a stored error standing
+   for a zero-length write ([err_reported]). *)
+Theorem C11_writer_write :
+  forall estate enc_step enc_finished enc_more accepting live potential G,
+  contract estate enc_step enc_finished enc_more accepting live potential G ->
+  forall (w : writer estate) buf fuel,
+  wready w -> accepting (t_st (w_enc w)) = true -> write_fuel potential G w buf <= fuel ->
+  write_post enc_step accepting potential G w buf fuel (write enc_step fuel w buf).
+Proof. exact write_spec. Qed.
+Print Assumptions C11_writer_write.
+
+(* ... and it returns (possibly with a panic in the known class) in every encoder state *)
+Theorem C11_writer_write_returns :
+  forall estate enc_step enc_finished enc_more accepting live potential G,
+  contract estate enc_step enc_finished enc_more accepting live potential G ->
+  forall (w : writer estate) buf fuel,
+  wready w -> write_fuel potential G w buf <= fuel -> fst (write enc_step fuel w buf) <> OutOfFuel.
+Proof. exact write_returns. Qed.
+Print Assumptions C11_writer_write_returns.
+
+Theorem C11_writer_flush :
+  forall estate enc_step enc_finished enc_more accepting live potential G,
+  contract estate enc_step enc_finished enc_more accepting live potential G ->
+  forall (w : writer estate) fuel,
+  wready w -> flush_fuel potential w <= fuel ->
+  flush_call_post enc_step enc_finished enc_more accepting live potential w fuel (flush enc_step enc_finished enc_more fuel w).
+Proof. exact flush_spec. Qed.
+Print Assumptions C11_writer_flush.
+
+(* into_inner / Drop return (never panic, never spin); when flush_or_close succeeded the encoder
+   is finished and the sink is complete; when it failed the error is reported to nobody *)
+Theorem C11_writer_close :
+  forall estate enc_step enc_finished enc_more accepting live potential G,
+  contract estate enc_step enc_finished enc_more accepting live potential G ->
+  forall (w : writer estate) fuel,
+  wready w -> flush_fuel potential w <= fuel ->
+  close_post enc_step enc_finished enc_more w fuel (close enc_step enc_finished enc_more fuel w).
+Proof. exact close_spec. Qed.
+Print Assumptions C11_writer_close.
+
+(* outside [KnownExhausted] no call panics and no zero-length write is swallowed, whatever the
+   encoder does *)
+Theorem C11_writer_write_outside_known :
+  forall estate (enc_step : estate -> op -> list byte -> nat -> eans estate) fuel (w : writer estate) rest,
+  tail_ok (k_script (w_sink w)) -> ~ KnownExhausted w ->
+  known_quiet w (write_loop enc_step fuel w rest).
+Proof. exact write_outside_known. Qed.
+Print Assumptions C11_writer_write_outside_known.
+
+Theorem C11_writer_flush_outside_known :
+  forall estate (enc_step : estate -> op -> list byte -> nat -> eans estate) enc_finished enc_more
+         fuel (w : writer estate) o,
+  tail_ok (k_script (w_sink w)) -> ~ KnownExhausted w ->
+  known_quiet w (flush_or_close enc_step enc_finished enc_more fuel w o).
+Proof. exact flush_outside_known. Qed.
+Print Assumptions C11_writer_flush_outside_known.
+
+(* a whole session on a fresh writer, any script of short writes and interrupts: if every visible
+   call succeeded and the sink never answered an error or a zero-length write (the only thing the
+   caller cannot see is a failure inside into_inner / Drop), then the encoder is finished, the sink
+   holds everything it produced, and it was fed the concatenation of the written buffers *)
+Theorem C11_writer_session :
+  forall estate enc_step enc_finished enc_more accepting live potential G,
+  contract estate enc_step enc_finished enc_more accepting live potential G ->
+  forall ops fuel (w : writer estate),
+  wclean accepting w -> session_fuel potential G w ops <= fuel -> closes ops = true ->
+  let (rs, w') := write_session enc_step enc_finished enc_more fuel ops w in
+  Forall (fun r => r = Ok tt) rs -> errs w' = errs w -> zeros w' = zeros w ->
+  enc_finished (t_st (w_enc w')) = true /\ sink_bytes (w_sink w') = emitted (w_enc w') /\
+  fed (w_enc w') = fed (w_enc w) ++ written ops.
+Proof. exact write_session_complete. Qed.
+Print Assumptions C11_writer_session.
+
+(* witnesses of the known classes (concrete encoder [toy_step], proved to satisfy [contract]) *)
+Theorem C11_writer_exhausted_swallow_witness :
+  let w0 := writer_new 2 toy0 (scripted_sink [Zero; Zero; Zero] Full) in
+  let '(rs, w) := write_session (toy_step false) toy_finished toy_more big_fuel
+                    [WWrite bytes_abc; WFlush; WFlush; WFlush] w0 in
+  rs = [Err EWriteZero; Err EInvalidData; Ok tt; Ok tt] /\
+  log_zero_writes (k_log (w_sink w)) = 3 /\ sink_bytes (w_sink w) <> emitted (w_enc w).
+Proof. exact writer_swallow_witness. Qed.
+Print Assumptions C11_writer_exhausted_swallow_witness.
+
+Theorem C11_writer_exhausted_panic_witness :
+  let w0 := writer_new 2 toy0 (scripted_sink [Full; Fail 9] Full) in
+  let '(rs, w) := write_session (toy_step false) toy_finished toy_more big_fuel
+                    [WWrite bytes_abc; WFlush; WWrite [120%N]; WWrite [121%N]] w0 in
+  rs = [Ok tt; Err (EScript 9); Err EInvalidData; Panic 1].
+Proof. exact writer_panic_witness. Qed.
+Print Assumptions C11_writer_exhausted_panic_witness.
+
+Theorem C11_writer_close_discards_witness :
+  let w0 := writer_new 8 toy0 (scripted_sink [Full; Fail 5] Full) in
+  let w1 := snd (write (toy_step false) big_fuel w0 bytes_abc) in
+  match close (toy_step false) toy_finished toy_more big_fuel w1 with
+  | (vis, discarded, w2) =>
+    vis = Ok tt /\ discarded = Err (EScript 5) /\ sink_bytes (w_sink w2) = bytes_abc /\
+    emitted (w_enc w2) = bytes_abc ++ [255%N]
+  end.
+Proof. exact writer_close_witness. Qed.
+Print Assumptions C11_writer_close_discards_witness.
+
+(* ------------------------------------------------------------------ copy adapter *)
+(* For every pair of scripts the call returns within copy_fuel iterations, never panics, and
+     Ok n  : no wrapped call failed; the encoder is finished, the sink holds everything it
+             produced (n bytes), and it was fed every byte the wrapped reader delivered;
+     Err e : either e is the FIRST read error - and then, unless the sink failed too, the stream
+             was still finished and is complete for the bytes read before - or no read error
+             occurred and e is the sink's own error, or UnexpectedEof standing for its
+             zero-length write.  See [copy_post]. *)
+Theorem C11_copy :
+  forall estate enc_step enc_finished enc_more accepting live potential G,
+  contract estate enc_step enc_finished enc_more accepting live potential G ->
+  forall (st0 : estate) ni no src k fuel,
+  0 < ni -> 0 < no -> fresh_source src -> tail_ok (k_script k) -> k_got k = [] ->
+  accepting st0 = true -> enc_finished st0 = false ->
+  copy_fuel potential G (copier_new ni no st0 src k) <= fuel ->
+  copy_post enc_finished (log_errs (src_log src)) (kerrs k) (kzeros k)
+            (copy enc_step enc_finished fuel (copier_new ni no st0 src k)).
+Proof. exact copy_spec. Qed.
+Print Assumptions C11_copy.
+
+(* the loop as it stood: a sink that always answers Ok(0) is retried for ever *)
+Theorem C11_copy_zero_write_unrepaired_refuted :
+  forall fuel, fst (copy_zero_retries (toy_step false) toy_finished fuel copy_witness) = OutOfFuel.
+Proof. exact copy_unrepaired_spins. Qed.
+Print Assumptions C11_copy_zero_write_unrepaired_refuted.
+
+(* ------------------------------------------------------------------ the encoder hypotheses *)
+(* the contract is satisfiable: a concrete encoder (identity + terminator; [true]: one frame per call) *)
+Theorem C11_contract_satisfiable : forall framed,
+  contract toy (toy_step framed) toy_finished toy_more toy_accepting toy_live toy_potential 2.
+Proof. exact toy_contract. Qed.
+Print Assumptions C11_contract_satisfiable.
+
+(* [chunk_independent] cannot be dropped from C11_reader_transparent: with the framing encoder
+   (which satisfies the contract) one short read changes the delivered bytes *)
+Theorem C11_chunk_dependence_witness :
+  let run sc := read_session (toy_step true) toy_finished big_fuel 20 [] 64
+                  (reader_new 8 toy0 (scripted_src bytes_abc sc Full)) in
+  emitted (r_enc (snd (run []))) = [7%N] ++ bytes_abc ++ [255%N] /\
+  emitted (r_enc (snd (run [Short 3]))) = [3%N; 97%N; 98%N; 99%N; 4%N; 100%N; 101%N; 102%N; 103%N; 255%N] /\
+  Forall (fun r => exists n, r = Ok n) (fst (run [Short 3])).
+Proof. exact chunk_dependence_witness. Qed.
+Print Assumptions C11_chunk_dependence_witness.
+
+(* non-vacuity: concrete non-trivial runs inside the hypotheses of the theorems above *)
+Example C11_points :
+  (let r0 := reader_new 4 toy0 (scripted_src bytes_abc [Short 1; Interrupted; Fail 7; Short 2] Full) in
+   let '(rs, r) := read_session (toy_step false) toy_finished big_fuel 20 [0; 3; 1] 2 r0 in
+   rs = [Ok 0; Ok 1; Err (EScript 7); Ok 2; Ok 2; Ok 2; Ok 1; Ok 0] /\
+   emitted (r_enc r) = bytes_abc ++ [255%N] /\ src_taken_bytes (r_src r) = bytes_abc) /\
+  (let c0 := copier_new 3 2 toy0 (scripted_src bytes_abc [Short 2; Interrupted; Full; Fail 4] Full)
+                        (scripted_sink [Short 1; Interrupted] Full) in
+   let '(r, c) := copy (toy_step false) toy_finished big_fuel c0 in
+   r = Err (EScript 4) /\ sink_bytes (c_sink c) = [97%N; 98%N; 99%N; 100%N; 101%N; 255%N] /\
+   toy_finished (t_st (c_enc c)) = true) /\
+  (let c0 := copier_new 3 2 toy0 (plain_src bytes_abc) (scripted_sink [Full; Zero] Full) in
+   fst (copy (toy_step false) toy_finished big_fuel c0) = Err EUnexpectedEof).
+Proof. split; [exact reader_example|split; [exact copy_example|exact copy_zero_example]]. Qed.
